@@ -16,7 +16,7 @@
     xhtml_roundtrip_tree_ns_partial xhtml_roundtrip_cdata_partial cdata_end_not_recovered
     html_roundtrip_prolog_partial xhtml_roundtrip_prolog_partial pi_gt_not_recovered_html
     xhtml_roundtrip_tree_qnames_partial markup_text_as_plain html_roundtrip_markup_partial
-    xhtml_roundtrip_markup_partial
+    xhtml_roundtrip_markup_partial name_not_a_name_not_recovered rawtext_trailing_lt_recovered
     rawtext_endtag_not_recovered comment_dashes_not_recovered attr_ws_not_recovered_xhtml
     markup_text_not_recovered raw_table_matches_reader normEol_id doctype_table_is_w3c
 -/
@@ -647,6 +647,19 @@ theorem rawtext_endtag_not_recovered :
     let evs : List FEv := [.start ['s', 'c', 'r', 'i', 'p', 't'] [], .text ['<', '/', 'b', '>'] false,
                            .end_ ['s', 'c', 'r', 'i', 'p', 't']]
     tokens false (loop .html {} true {} evs).flatten ≠ some (htmlExpected evs) := by decide
+
+/-- a tag "name" that is not a name (here: with a blank) is read back as a name and an attribute -/
+theorem name_not_a_name_not_recovered :
+    let evs : List FEv := [.empty ['a', ' ', 'b'] []]
+    tokens false (loop .html {} true {} evs).flatten ≠ some (htmlExpected evs) := by decide
+
+/-- the hypothesis "raw text does not end in `<`" of `rawOk` is stronger than necessary (it keeps the
+    simulation invariant simple): the reader does recover such text -/
+theorem rawtext_trailing_lt_recovered :
+    let evs : List FEv := [.start ['s', 'c', 'r', 'i', 'p', 't'] [], .text ['a', '<'] false,
+                           .end_ ['s', 'c', 'r', 'i', 'p', 't']]
+    tokens false (loop .html {} true {} evs).flatten = some (htmlExpected evs) ∧ rawOk ['a', '<'] = false := by
+  decide
 
 /-- a comment containing `--`: read back shorter (and html.parser / expat reject or truncate it) -/
 theorem comment_dashes_not_recovered :
